@@ -1,17 +1,22 @@
 (* C05 — whole Swarm.DialPeer with concurrent callers: the property's sentences as a
-   monitor over the implementation's trace.  There is NO model replay at this level
-   (conform is trivially empty): the components are modelled and proved separately
-   (limiter, worker, dialSync, ranker); their composition is covered by this
-   correspondence-level check only (_partial).  No proofs here.
+   monitor over the implementation's trace, and the wire format of these cases.  The
+   traces are also replayed by the composite model (SpecComposite.conform_d_case).
+   This file does not depend on any model.  No proofs here.
 
    Wire format:
-     5 fdLimit perPeerLimit (stimulus observation)*
+     5 fdLimit perPeerLimit nfd (addr)*nfd (stimulus observation)*
+   nfd..: the addresses of the case for which shouldConsumeFd holds.
    stimulus:
-     1 c sim fdir   a new goroutine calls s.DialPeer(ctx_c, p) (flags of ctx_c)
+     1 c sim fdir ok n (addr delay)*n
+                    a new goroutine calls s.DialPeer(ctx_c, p) (flags of ctx_c); ok and the
+                    ranking are what addrsForDial + rankAddrs answer for this request now
      2 d            virtual time advances by d ns
-     3 a kind       the parked transport dial of address a ends: 0 failure, 1 connection
+     3 a kind flag  the parked transport dial of address a ends: 0 failure, 1 connection
+                    (flag 1 = direct, 0 = relayed)
      4 c            ctx_c is cancelled
      5 a            the address is put in back-off (left by earlier dials)
+     6              the connection gater will park the next request handling of a worker loop
+     7              the parked gater call returns
    observation (after synctest.Wait):
      nr (c kind)*nr   DialPeer calls that returned in this step: 0 a connection to that
                       very peer, 1 an error, 2 the caller's context error, 3 a connection
@@ -29,19 +34,29 @@ From Verif Require Import lib.Wire c05.ModelLimiter c05.SpecLimiter c05.SpecWork
 Import ListNotations.
 Local Open Scope Z_scope.
 
-Inductive dstim := DCall (c : Z) | DAdvance | DRes (a k : Z) | DCancel (c : Z) | DBackoff.
+Inductive cstim :=
+| KCall (c : Z) (sim fdir : bool) (rank : option (list (Z * Z)))
+| KAdvance (d : Z) | KRes (a kind : Z) (flag : bool) | KCancel (c : Z) | KBackoff (a : Z)
+| KPark | KRelease.
 
 Record dobs := mkDobs {
   d_rets : list (Z * Z); d_starts : list Z; d_ends : list Z;
   d_infd : Z; d_inpeer : Z; d_fdc : Z; d_actp : Z; d_nad : Z; d_left : Z; d_waiting : Z }.
 
-Definition decode_dstim (l : list Z) : option (dstim * list Z) :=
+Definition decode_kstim (l : list Z) : option (cstim * list Z) :=
   match l with
-  | 1 :: c :: _ :: _ :: r => Some (DCall c, r)
-  | 2 :: _ :: r => Some (DAdvance, r)
-  | 3 :: a :: k :: r => Some (DRes a k, r)
-  | 4 :: c :: r => Some (DCancel c, r)
-  | 5 :: _ :: r => Some (DBackoff, r)
+  | 1 :: c :: sim :: fdir :: ok :: n :: r =>
+      if small n then
+        match take_pairs (Z.to_nat n) r with
+        | Some (rk, r') => Some (KCall c (zbool sim) (zbool fdir) (if zbool ok then Some rk else None), r')
+        | None => None end
+      else None
+  | 2 :: d :: r => Some (KAdvance d, r)
+  | 3 :: a :: k :: f :: r => Some (KRes a k (zbool f), r)
+  | 4 :: c :: r => Some (KCancel c, r)
+  | 5 :: a :: r => Some (KBackoff a, r)
+  | 6 :: r => Some (KPark, r)
+  | 7 :: r => Some (KRelease, r)
   | _ => None
   end.
 
@@ -66,13 +81,13 @@ Definition decode_dobs (l : list Z) : option (dobs * list Z) :=
   | _ => None
   end.
 
-Fixpoint decode_dtrace (fuel : nat) (l : list Z) : option (list (dstim * dobs)) :=
+Fixpoint decode_dtrace (fuel : nat) (l : list Z) : option (list (cstim * dobs)) :=
   match fuel with
   | O => None
   | S f =>
       match l with
       | [] => Some []
-      | _ => match decode_dstim l with
+      | _ => match decode_kstim l with
              | Some (x, r) =>
                  match decode_dobs r with
                  | Some (o, r') => match decode_dtrace f r' with
@@ -86,20 +101,22 @@ Record dmon := mkDmon {
   dm_wait : list Z;       (* callers inside DialPeer *)
   dm_done : list Z;       (* callers that returned *)
   dm_dialed : list Z;     (* addresses handed to a transport since some caller has been waiting *)
-  dm_succ : bool }.       (* a transport dial produced a connection *)
+  dm_succ : bool;         (* a transport dial produced a connection *)
+  dm_park : bool }.       (* a worker loop may be parked inside the connection gater *)
 
 Definition remz (x : Z) (l : list Z) : list Z := filter (fun y => negb (y =? x)) l.
 
-Fixpoint monitor_d (fdl ppl : Z) (m : dmon) (i : Z) (tr : list (dstim * dobs)) : list Z :=
+Fixpoint monitor_d (fdl ppl : Z) (m : dmon) (i : Z) (tr : list (cstim * dobs)) : list Z :=
   match tr with
   | [] => []
   | (x, o) :: r =>
-      let wait0 := match x with DCall c => c :: dm_wait m | _ => dm_wait m end in
-      let succ := dm_succ m || match x with DRes _ k => k =? 1 | _ => false end in
+      let wait0 := match x with KCall c _ _ _ => c :: dm_wait m | _ => dm_wait m end in
+      let succ := dm_succ m || match x with KRes _ k _ => k =? 1 | _ => false end in
       let rets := map fst (d_rets o) in
       let wait1 := fold_right remz wait0 rets in
       let done' := rets ++ dm_done m in
       let dialed' := d_starts o ++ dm_dialed m in
+      let park := match x with KPark => true | KRelease => false | _ => dm_park m end in
       (* 1: every return is of a caller that is inside, at most once; never a connection to
             another peer; a connection only if some dial produced one *)
       if negb (forallb (fun e => mem_z (fst e) wait0 && negb (snd e =? 3) &&
@@ -107,7 +124,7 @@ Fixpoint monitor_d (fdl ppl : Z) (m : dmon) (i : Z) (tr : list (dstim * dobs)) :
       then [ERR_PROPERTY; i; 1]
       (* 2: a cancelled caller is released in the same step, with its context error *)
       else if match x with
-              | DCancel c => mem_z c (dm_wait m) && negb (existsb (fun e => (fst e =? c) && (snd e =? 2)) (d_rets o))
+              | KCancel c => mem_z c (dm_wait m) && negb (existsb (fun e => (fst e =? c) && (snd e =? 2)) (d_rets o))
               | _ => false end
       then [ERR_PROPERTY; i; 2]
       (* 3: while any caller waits, each address is handed to a transport at most once *)
@@ -118,35 +135,49 @@ Fixpoint monitor_d (fdl ppl : Z) (m : dmon) (i : Z) (tr : list (dstim * dobs)) :
       then [ERR_PROPERTY; i; 4]
       (* 5: cancelling one caller does not end the shared attempts of the others *)
       else if match x with
-              | DCancel _ => negb (match wait1 with [] => true | _ => false end) &&
+              | KCancel _ => negb (match wait1 with [] => true | _ => false end) &&
                              negb (match d_ends o with [] => true | _ => false end)
               | _ => false end
       then [ERR_PROPERTY; i; 5]
       (* 6: once all callers have returned nothing is left: no transport dial, no token,
             no active dial (worker), no goroutine *)
       else if match wait1 with
-              | [] => negb ((d_inpeer o =? 0) && (d_fdc o =? 0) && (d_actp o =? 0) && (d_nad o =? 0) && (d_left o =? 0))
+              | [] => negb ((d_inpeer o =? 0) && (d_fdc o =? 0) && (d_actp o =? 0) && (d_nad o =? 0) &&
+                            ((d_left o =? 0) || park))
               | _ => false end
       then [ERR_PROPERTY; i; 6]
       (* 7: the harness' count of callers inside DialPeer agrees (exactly-once bookkeeping) *)
       else if negb (d_waiting o =? zlen wait1) then [ERR_PROPERTY; i; 7]
+      (* 9: every candidate address is attempted: after more virtual time than any ranking
+            delay, a caller still waits only while some transport dial is in progress
+            (unless a worker loop is parked in the gater, i.e. in user code) *)
+      else if match x with
+              | KAdvance d => (2000000000 <=? d) && negb park &&
+                              negb (match wait1 with [] => true | _ => false end) && (d_inpeer o =? 0)
+              | _ => false end
+      then [ERR_PROPERTY; i; 9]
       else
         monitor_d fdl ppl
-          (mkDmon wait1 done' (match wait1 with [] => [] | _ => dialed' end) succ) (i + 1) r
+          (mkDmon wait1 done' (match wait1 with [] => [] | _ => dialed' end) succ park) (i + 1) r
   end.
 
-Definition conform_d_case (l : list Z) : list Z :=
+Definition skip_header (l : list Z) : option (Z * Z * list Z * list Z) :=
   match l with
-  | _ :: _ :: r => match decode_dtrace (S (length r)) r with Some _ => [] | None => [ERR_MALFORMED; 51] end
-  | _ => [ERR_MALFORMED; 50]
+  | fdl :: ppl :: nfd :: r =>
+      if small nfd then
+        match take_zs (Z.to_nat nfd) r with
+        | Some (fds, r') => Some (fdl, ppl, fds, r')
+        | None => None end
+      else None
+  | _ => None
   end.
 
 Definition monitor_d_case (l : list Z) : list Z :=
-  match l with
-  | fdl :: ppl :: r =>
+  match skip_header l with
+  | Some (fdl, ppl, _, r) =>
       match decode_dtrace (S (length r)) r with
       | Some tr =>
-          match monitor_d fdl ppl (mkDmon [] [] [] false) 0 tr with
+          match monitor_d fdl ppl (mkDmon [] [] [] false false) 0 tr with
           | [] =>
               (* the case ends with every caller returned *)
               match rev tr with
@@ -157,5 +188,5 @@ Definition monitor_d_case (l : list Z) : list Z :=
           end
       | None => [ERR_MALFORMED; 51]
       end
-  | _ => [ERR_MALFORMED; 50]
+  | None => [ERR_MALFORMED; 50]
   end.
